@@ -431,7 +431,7 @@ def run_families(pid, plan, rng):
     return S, raw, enc
 
 
-def two_level(pid, S, enc, obs_only=False):
+def two_level(pid, S, enc, obs_only=False, obs_all=False):
     """Level 1: is the execution a behaviour of Swarm.tla (SwarmTrace.tla, all invariants in every state)?
     Level 2, for every execution level 1 does not accept: the property-level reading (SwarmObs.tla).
     Returns (accepted by level 1, problems = violated formulas of either level, unexplained = executions that
@@ -441,7 +441,9 @@ def two_level(pid, S, enc, obs_only=False):
         rest = list(range(len(S)))
     else:
         acc, strict = sw.validate(pid, S, enc)
-        rest = [i for i in range(len(S)) if i not in sw.LAST_ACCEPTED]
+        # (thorough tier: level 2 reads every execution, also the ones level 1 accepts - a cross-check that the
+        #  property-level formulas hold on behaviours of Swarm.tla)
+        rest = list(range(len(S))) if obs_all else [i for i in range(len(S)) if i not in sw.LAST_ACCEPTED]
     probs = [dict(p, kind='invariant') for p in strict if p['inv']]
     rejected = [p for p in strict if not p['inv']]
     obs = sw.obs_all(pid, S, enc, rest) if rest else []
@@ -478,7 +480,7 @@ def swarm_check(pid, tier, plan, kinds, design_over=None, extra_oracles=(), vacu
     if design_viol:
         V.violation(design_viol, {'design': True, 'tlc': res['stdout'][-3000:]}, None)
     S, raw, enc = run_families(pid, plan, rng)
-    acc, probs, unexplained = two_level(pid, S, enc, obs_only)
+    acc, probs, unexplained = two_level(pid, S, enc, obs_only, obs_all=(tier != 'quick'))
     counted = 0
     for p in probs:
         i = p['scenario']
